@@ -35,6 +35,7 @@ RULE += (' Also: call objects created up-front and started later.')
 RULE += (' Also: class-based managers whose exit answers a clean exit with a true value: the result of the call is still handed on.')
 RULE += (" Also: bodies ending with a BaseException that is no Exception while the context's clean-up fails with its own exception; class managers whose exit is a staticmethod / classmethod.")
 RULE += (' Also: generator managers taking a single coroutine function (a hook) as their argument.')
+RULE += (' Also: the _recreate_cm hook as a classmethod or set on the instance.')
 ASSUMPTIONS = ["class-based ContextDecorator instances are shared between calls (documented default of _recreate_cm)"]
 EXHAUSTIVE_SUBSPACES = 'every scenario counted in scenarios_explored_exhaustively had ALL its interleavings executed'
 EXHAUSTIVE = {"quick": False, "thorough": False}
@@ -58,7 +59,7 @@ def cases(tier, seed, shard, nshards):
             calls = [[rng.choice(["ret", "ret", "raise"]) for _ in range(rng.randint(1, 5 if nt == 1 else 3))] for _ in range(nt)]
             susp = {"enter": rng.choice([0, 1, 2]), "body": rng.choice([0, 1, 2]), "exit": rng.choice([0, 1, 2])}
         manager = rng.choice(["generator", "generator", "class", "lease"])
-        yield {"mode": mode, "manager": manager, "clean_exit_truthy": rng.random() < 0.4, "hook_arg": rng.random() < 0.25, "exit_binding": rng.choice(["method", "method", "static", "class"]), "suppress": rng.choice([False, False, False, True, True, "all"]), "body_kind": rng.choice(["async", "async", "eager"]),
+        yield {"mode": mode, "manager": manager, "clean_exit_truthy": rng.random() < 0.4, "hook_arg": rng.random() < 0.25, "recreate_binding": rng.choice(["method", "method", "classmethod", "instance"]), "exit_binding": rng.choice(["method", "method", "static", "class"]), "suppress": rng.choice([False, False, False, True, True, "all"]), "body_kind": rng.choice(["async", "async", "eager"]),
                "direct": rng.random() < 0.25 and manager != "lease",
                "calls": calls, "susp": susp, "cancel_task": rng.randrange(nt) if rng.random() < 0.45 else None,
                "runs": DFS_LIMIT[tier] if mode == "dfs" else RANDOM_RUNS[tier], "seed": rng.randrange(1 << 30),
@@ -187,6 +188,12 @@ def execute(case, choose, cancel_at=None):
             def _recreate_cm(self):
                 return Lease() if self.busy else self
 
+            if case.get("recreate_binding") == "classmethod":
+                # (the hook as a classmethod: a fresh lease per call - looked up like any other attribute)
+                @classmethod
+                def _recreate_cm(cls):  # noqa: F811
+                    return cls()
+
             def __len__(self):
                 return int(self.busy)  # resources currently held: an idle lease is "empty", i.e. tests false
 
@@ -217,6 +224,9 @@ def execute(case, choose, cancel_at=None):
                 return suppressed(exc) or (exc is None and bool(case.get("clean_exit_truthy")))
 
         deco = Lease()
+        if case.get("recreate_binding") == "instance":
+            # (the hook set on the INSTANCE - a factory injected at construction time: it is this instance's hook)
+            deco._recreate_cm = lambda: Lease()
     else:
         class Manager(A.ContextDecorator):
             def __bool__(self):
